@@ -475,7 +475,8 @@ void __assert_fail(const char *expr, const char *file, unsigned int line,
 	_exit(2);
 }
 
-#ifdef SIM_FLAVOUR_ASAN
+#if defined(SIM_FLAVOUR_ASAN) || defined(SIM_FLAVOUR_UBSAN)
+#define SIM_HAVE_COV 1
 static uint8_t cov_map[1 << 16];
 
 void __sanitizer_cov_trace_pc(void)
@@ -485,6 +486,7 @@ void __sanitizer_cov_trace_pc(void)
 	sim_step();
 }
 
+#ifdef SIM_FLAVOUR_ASAN
 extern const char *__asan_get_report_description(void);
 
 void __asan_on_error(void)
@@ -494,6 +496,7 @@ void __asan_on_error(void)
 	snprintf(R.sanitizer_kind, sizeof(R.sanitizer_kind), "SANITIZER:asan:%s",
 		 d ? d : "?");
 }
+#endif
 
 /* UBSan calls this weak hook for every report when it is defined */
 extern void __ubsan_get_current_report_data(const char **OutIssueKind,
@@ -516,6 +519,7 @@ void __ubsan_on_report(void)
 	}
 }
 
+#ifdef SIM_FLAVOUR_ASAN
 __attribute__((used)) const char *__asan_default_options(void)
 {
 	return "exitcode=77:detect_leaks=0:halt_on_error=0:handle_segv=0:"
@@ -523,6 +527,7 @@ __attribute__((used)) const char *__asan_default_options(void)
 	       "allocator_may_return_null=1:detect_stack_use_after_return=0:suppress_equal_pcs=0:"
 	       "print_summary=0";
 }
+#endif
 
 __attribute__((used)) const char *__ubsan_default_options(void)
 {
@@ -532,7 +537,7 @@ __attribute__((used)) const char *__ubsan_default_options(void)
 
 static unsigned cov_count(void)
 {
-#ifdef SIM_FLAVOUR_ASAN
+#ifdef SIM_HAVE_COV
 	unsigned n = 0;
 	for (size_t i = 0; i < sizeof(cov_map); i++)
 		n += cov_map[i];
